@@ -15,4 +15,8 @@ if [ -x vlib/mirsym/dump.py ]; then
   python3-vt vlib/mirsym/dump.py --warm > .cache/setup-mir.log 2>&1
   echo "mir warm-up exit=$?"
 fi
+# native replay program (real parser / engine, used to replay counterexamples)
+( cd native && cp -f /repo/Cargo.lock Cargo.lock && cp -f /repo/rust-toolchain.toml rust-toolchain.toml 2>/dev/null; \
+  env -u RUSTUP_TOOLCHAIN CARGO_TARGET_DIR="$PWD/../.cache/mirtarget" cargo build --offline ) > .cache/setup-native.log 2>&1
+echo "native warm-up exit=$?"
 exit 0
